@@ -508,7 +508,9 @@ def run(ctx):
             fails.append({"kind": "oracle", "what": "C13 %s [%s]" % (p["what"], name), "finding": p["finding"],
                           "detail": p["detail"], "script": sc.splitlines(), "impl": [l for l in out.splitlines() if l.startswith("res ")][:40],
                           "trace_tail": evs[-60:]})
-        if ctx.driver_ok and evs and (not probs) and "# noinclusion" not in sc:
+        # trace inclusion for every run that ended well; an exited-but-unjoined client thread (known
+        # finding) does not make the trace unusable
+        if ctx.driver_ok and evs and all(p["finding"] == "client-thread-unjoined" for p in probs) and "# noinclusion" not in sc:
             incl_jobs.append((name, sc, evs))
     # trace inclusion (only traces of runs without a failure: a failing run is already reported)
     if ctx.driver_ok:
